@@ -1,11 +1,265 @@
 import Oracle.Util
+import Wz.Model.Store
+/-
+Oracle topic c04: the store/linker model.  Requests (after the topic word):
+  new <sid> <compiler 0|1> <constMutOK 0|1>
+  inst <sid> <name> <memLimitPages> <descriptor tokens…>      → ok | invalid | import | data | start
+  gget <sid> <inst> <k> | gset <sid> <inst> <k> <v>            (through an instance; same cell as the API)
+  mload|mstore|mgrow <sid> <inst> …, tset|tgrow|tcall <sid> <inst> <t> …, call <sid> <inst> <f>
+  dump <sid> <probe addresses a,b,c | ->                       canonical view of every instance
+  drop <sid>
+-/
 namespace Oracle.C04
-open Oracle
+open Oracle Wz.Model.Store
 
-/-- Topic state (stub: no model behind this topic yet). -/
-abbrev St := Unit
-def init : St := ()
+abbrev St := List (Nat × Store)
+def init : St := []
 
-def step (st : St) (_args : List String) : St × String := (st, "bad-op")
+def parseVT (c : Char) : Option VT :=
+  match c with
+  | 'i' => some .i32 | 'I' => some .i64 | 'f' => some .f32 | 'F' => some .f64
+  | 'r' => some .funcref | 'e' => some .externref | _ => none
+
+def parseVT1 (s : String) : Option VT :=
+  match s.toList with
+  | [c] => parseVT c
+  | _ => none
+
+def parseSig (s : String) : Option FT :=
+  match s.splitOn ">" with
+  | [p, r] => do
+    let ps ← p.toList.mapM parseVT
+    let rs ← r.toList.mapM parseVT
+    pure { params := ps, results := rs }
+  | _ => none
+
+def parseOptNat (s : String) : Option (Option Nat) :=
+  if s == "-" then some none else (parseNat s).map some
+
+def parseCE (s : String) : Option ConstExpr :=
+  if s == "n" then some .refNull
+  else match s.toList with
+    | 'c' :: r => (parseNat (String.ofList r)).map .const
+    | 'g' :: r => (parseNat (String.ofList r)).map .globalGet
+    | 'f' :: r => (parseNat (String.ofList r)).map .refFunc
+    | _ => none
+
+def parseItems (s : String) : Option (List (Option Nat)) :=
+  if s == "-" then some [] else
+  (s.splitOn ",").mapM (fun x => if x == "n" then some none else (parseNat x).map some)
+
+def parseKind (s : String) : Option Kind :=
+  match s with
+  | "f" => some .func | "t" => some .table | "m" => some .mem | "g" => some .global | _ => none
+
+def parseTok (limit : Nat) (d : ModDesc) (tok : String) : Option ModDesc :=
+  match tok.splitOn ":" with
+  | ["if", m, n, sg] => do
+    let ft ← parseSig sg
+    pure { d with imports := d.imports ++ [{ mod := m, name := n, desc := .func ft }] }
+  | ["it", m, n, rt, mn, mx] => do
+    let rt ← parseVT1 rt; let mn ← parseNat mn; let mx ← parseOptNat mx
+    pure { d with imports := d.imports ++ [{ mod := m, name := n, desc := .table { rt := rt, min := mn, max := mx } }] }
+  | ["im", m, n, mn, mx] => do
+    let mn ← parseNat mn; let mx ← parseOptNat mx
+    pure { d with imports := d.imports ++ [{ mod := m, name := n, desc := .mem (decodeMT limit mn mx) }] }
+  | ["ig", m, n, vt, mu] => do
+    let vt ← parseVT1 vt; let mu ← parseBool mu
+    pure { d with imports := d.imports ++ [{ mod := m, name := n, desc := .global { vt := vt, mutable := mu } }] }
+  | ["lf", sg, b] => do
+    let ft ← parseSig sg
+    let body ← (match b.toList with
+      | 'c' :: r => (parseNat (String.ofList r)).map Body.const
+      | 'b' :: r => (parseNat (String.ofList r)).map Body.bump
+      | _ => none)
+    pure { d with funcs := d.funcs ++ [{ ft := ft, body := body }] }
+  | ["lt", rt, mn, mx] => do
+    let rt ← parseVT1 rt; let mn ← parseNat mn; let mx ← parseOptNat mx
+    pure { d with tables := d.tables ++ [{ rt := rt, min := mn, max := mx }] }
+  | ["lm", mn, mx] => do
+    let mn ← parseNat mn; let mx ← parseOptNat mx
+    pure { d with mem := some (decodeMT limit mn mx) }
+  | ["lg", vt, mu, ce] => do
+    let vt ← parseVT1 vt; let mu ← parseBool mu; let ce ← parseCE ce
+    pure { d with globals := d.globals ++ [{ ty := { vt := vt, mutable := mu }, init := ce }] }
+  | ["ex", n, k, i] => do
+    let k ← parseKind k; let i ← parseNat i
+    pure { d with exports := d.exports ++ [{ name := n, kind := k, idx := i }] }
+  | ["el", t, ce, items] => do
+    let t ← parseNat t; let ce ← parseCE ce; let items ← parseItems items
+    pure { d with elems := d.elems ++ [{ table := t, off := ce, items := items }] }
+  | ["da", ce, hex] => do
+    let ce ← parseCE ce; let bs ← parseBytes hex
+    pure { d with datas := d.datas ++ [{ off := ce, bytes := bs }] }
+  | ["st", "trap"] => some { d with start := .trap }
+  | ["st", "set", k, v] => do
+    let k ← parseNat k; let v ← parseNat v
+    pure { d with start := .set k v }
+  | ["st", "settrap", k, v] => do
+    let k ← parseNat k; let v ← parseNat v
+    pure { d with start := .setTrap k v }
+  | _ => none
+
+def parseDesc (limit : Nat) (toks : List String) : Option ModDesc :=
+  toks.foldlM (parseTok limit) {}
+
+def outcomeStr : Outcome → String
+  | .ok => "ok" | .invalid => "invalid" | .importErr => "import" | .dataErr => "data" | .startErr => "start"
+
+def canonG (s : Store) (a : Nat) : Nat :=
+  match s.globals[a]? with
+  | none => 0
+  | some g =>
+    let v := gvalue s a
+    match g.ty.vt with
+    | .funcref | .externref => if v == 0 then 0 else 1
+    | vt => mask vt v
+
+def sig0 : FT := { params := [], results := [.i32] }
+
+/-- what a `call_indirect (type ()->i32)` on a slot observes -/
+def slotStr (s : Store) (t : TableInst) (r : Nat) : String :=
+  if r == 0 then "n" else
+  if t.rt != .funcref then "x" else
+  match s.funcs[r - 1]? with
+  | some f => if f.ft == sig0 then (match f.body with | .const c => toString c | .bump _ => "b") else "x"
+  | none => "x"
+
+def joinWith (sep : String) (l : List String) : String := sep.intercalate l
+
+def dumpInst (s : Store) (probes : List Nat) (i : Inst) : String :=
+  let gs := joinWith "," (i.gaddrs.map (fun a => toString (canonG s a)))
+  let ms := match i.maddr with
+    | none => "-"
+    | some ma => match s.mems[ma]? with
+      | none => "?"
+      | some m => s!"{m.pages}:" ++ joinWith "," (probes.map (fun a => if a < m.size then toString (m.read a) else "o"))
+  let ts := joinWith "|" (i.taddrs.map (fun ta => match s.tables[ta]? with
+    | none => "?"
+    | some t => s!"{t.refs.length}:" ++ joinWith "," (t.refs.map (slotStr s t))))
+  s!"{i.name}[g={gs};m={ms};t={ts}]"
+
+def withStore (st : St) (sid : String) (f : Nat → Store → St × String) : St × String :=
+  match parseNat sid with
+  | none => (st, "bad-op")
+  | some id => match assocGet st id with
+    | none => (st, "bad-op")
+    | some s => f id s
+
+def step (st : St) (args : List String) : St × String :=
+  match args with
+  | ["new", sid, c, f2] =>
+    match parseNat sid, parseBool c, parseBool f2 with
+    | some id, some c, some f2 => (assocSet st id { compiler := c, constMutOK := f2 }, "ok")
+    | _, _, _ => (st, "bad-op")
+  | ["drop", sid] =>
+    match parseNat sid with
+    | some id => (st.filter (·.1 != id), "ok")
+    | none => (st, "bad-op")
+  | "inst" :: sid :: name :: limit :: toks =>
+    withStore st sid fun id s =>
+      match parseNat limit with
+      | none => (st, "bad-op")
+      | some limit =>
+        match parseDesc limit toks with
+        | none => (st, "bad-op")
+        | some d =>
+          let (s', o) := instantiate s name d
+          (assocSet st id s', outcomeStr o)
+  | ["gget", sid, i, k] =>
+    withStore st sid fun _ s =>
+      match parseNat i, parseNat k with
+      | some i, some k => match instGaddr s i k with
+        | some a => (st, toString (canonG s a))
+        | none => (st, "bad-op")
+      | _, _ => (st, "bad-op")
+  | ["gset", sid, i, k, v] =>
+    withStore st sid fun id s =>
+      match parseNat i, parseNat k, parseNat v with
+      | some i, some k, some v => match instGaddr s i k with
+        | some a => (assocSet st id (gset s a v), "ok")
+        | none => (st, "bad-op")
+      | _, _, _ => (st, "bad-op")
+  | ["mload", sid, i, addr] =>
+    withStore st sid fun _ s =>
+      match parseNat i, parseNat addr with
+      | some i, some addr => match (instMaddr s i).bind (fun ma => s.mems[ma]?) with
+        | some m => (st, if addr < m.size then toString (m.read addr) else "trap")
+        | none => (st, "bad-op")
+      | _, _ => (st, "bad-op")
+  | ["mstore", sid, i, addr, v] =>
+    withStore st sid fun id s =>
+      match parseNat i, parseNat addr, parseNat v with
+      | some i, some addr, some v => match instMaddr s i with
+        | some ma => match s.mems[ma]? with
+          | some m =>
+            if addr < m.size then (assocSet st id { s with mems := s.mems.set ma (m.write addr (v % 256)) }, "ok")
+            else (st, "trap")
+          | none => (st, "bad-op")
+        | none => (st, "bad-op")
+      | _, _, _ => (st, "bad-op")
+  | ["mgrow", sid, i, n] =>
+    withStore st sid fun id s =>
+      match parseNat i, parseNat n with
+      | some i, some n => match instMaddr s i with
+        | some ma => match s.mems[ma]? with
+          | some m =>
+            let (m', r) := memGrow m n
+            (assocSet st id { s with mems := s.mems.set ma m' }, match r with | some p => toString p | none => "-1")
+          | none => (st, "bad-op")
+        | none => (st, "bad-op")
+      | _, _ => (st, "bad-op")
+  | ["tgrow", sid, i, t, n] =>
+    withStore st sid fun id s =>
+      match parseNat i, parseNat t, parseNat n with
+      | some i, some t, some n => match instTaddr s i t with
+        | some ta => match s.tables[ta]? with
+          | some tb =>
+            let (tb', r) := tableGrow tb n
+            (assocSet st id { s with tables := s.tables.set ta tb' }, match r with | some p => toString p | none => "-1")
+          | none => (st, "bad-op")
+        | none => (st, "bad-op")
+      | _, _, _ => (st, "bad-op")
+  | ["tset", sid, i, t, slot, f] =>
+    withStore st sid fun id s =>
+      match parseNat i, parseNat t, parseNat slot with
+      | some i, some t, some slot => match instTaddr s i t with
+        | some ta => match s.tables[ta]? with
+          | some tb =>
+            let r : Option Nat := if f == "n" then some 0 else (parseNat f).bind (fun f => (instFaddr s i f).map (· + 1))
+            match r with
+            | none => (st, "bad-op")
+            | some r =>
+              if slot < tb.refs.length then
+                (assocSet st id { s with tables := s.tables.set ta { tb with refs := tb.refs.set slot r } }, "ok")
+              else (st, "trap")
+          | none => (st, "bad-op")
+        | none => (st, "bad-op")
+      | _, _, _ => (st, "bad-op")
+  | ["tcall", sid, i, t, slot] =>
+    withStore st sid fun _ s =>
+      match parseNat i, parseNat t, parseNat slot with
+      | some i, some t, some slot => match (instTaddr s i t).bind (fun ta => s.tables[ta]?) with
+        | some tb => match tb.refs[slot]? with
+          | some r => (st, slotStr s tb r)
+          | none => (st, "o")
+        | none => (st, "bad-op")
+      | _, _, _ => (st, "bad-op")
+  | ["call", sid, i, f] =>
+    withStore st sid fun id s =>
+      match parseNat i, parseNat f with
+      | some i, some f => match instFaddr s i f with
+        | some a =>
+          let (s', r) := callFunc s a
+          (assocSet st id s', match r with | some v => toString v | none => "bad-op")
+        | none => (st, "bad-op")
+      | _, _ => (st, "bad-op")
+  | ["dump", sid, probes] =>
+    withStore st sid fun _ s =>
+      let ps : Option (List Nat) := if probes == "-" then some [] else (probes.splitOn ",").mapM parseNat
+      match ps with
+      | none => (st, "bad-op")
+      | some ps => (st, joinWith " " (s.insts.map (dumpInst s ps)))
+  | _ => (st, "bad-op")
 
 end Oracle.C04
